@@ -377,6 +377,6 @@ def run(ctx, progs):
         r6_non_dummy_witness(ctx, P)
         r7_unchecked_witness_callers(ctx, P)
         from . import c17, c18
-        c17.r8_reserve_keeps_current_chunk(ctx, P, R="C14.R8")
+        c17.r8_reserve_keeps_current_chunk(ctx, P, R="C14.R8", sizing=False)
         c18.r4_conversions(ctx, P, R="C14.R9")
     ctx.config = None
